@@ -163,6 +163,93 @@ func (st *delitState) delitOnce(fname string, src []byte, original, skip map[str
 					}
 				}
 			}
+		}
+		if hit == nil {
+			// the literal call as a direct argument of the statement's (only) call: f(a, func() T {...}(), b), when the other
+			// operands are plain names and constants that the literal does not assign
+			var outer *ast.CallExpr
+			switch x := s.(type) {
+			case *ast.ExprStmt:
+				outer, _ = x.X.(*ast.CallExpr)
+			case *ast.ReturnStmt:
+				if len(x.Results) == 1 {
+					outer, _ = x.Results[0].(*ast.CallExpr)
+				}
+			case *ast.AssignStmt:
+				if len(x.Rhs) == 1 {
+					outer, _ = x.Rhs[0].(*ast.CallExpr)
+					for _, l := range x.Lhs {
+						if _, isID := l.(*ast.Ident); !isID {
+							outer = nil
+						}
+					}
+				}
+			}
+			if outer != nil && !outer.Ellipsis.IsValid() {
+				var inner *ast.CallExpr
+				names := map[string]bool{}
+				plain := true
+				var isPlain func(e ast.Expr) bool
+				isPlain = func(e ast.Expr) bool {
+					switch y := e.(type) {
+					case *ast.Ident:
+						names[y.Name] = true
+						return true
+					case *ast.BasicLit:
+						return true
+					case *ast.SelectorExpr:
+						return isPlain(y.X)
+					case *ast.ParenExpr:
+						return isPlain(y.X)
+					}
+					return false
+				}
+				if !isPlain(outer.Fun) {
+					plain = false
+				}
+				for _, a := range outer.Args {
+					if ce := isIIFE(a); ce != nil && inner == nil {
+						inner = ce
+						continue
+					}
+					if !isPlain(a) {
+						plain = false
+					}
+				}
+				if inner != nil && plain {
+					// nothing the literal assigns is named outside it
+					clash := false
+					ast.Inspect(inner.Fun.(*ast.FuncLit).Body, func(n ast.Node) bool {
+						switch y := n.(type) {
+						case *ast.AssignStmt:
+							for _, l := range y.Lhs {
+								if id := rootIdentOf(l); id != nil && names[id.Name] && y.Tok != token.DEFINE {
+									clash = true
+								}
+							}
+						case *ast.IncDecStmt:
+							if id := rootIdentOf(y.X); id != nil && names[id.Name] {
+								clash = true
+							}
+						case *ast.UnaryExpr:
+							if y.Op == token.AND {
+								if id := rootIdentOf(y.X); id != nil && names[id.Name] {
+									clash = true
+								}
+							}
+						}
+						return true
+					})
+					if !clash {
+						hit = &found{s, inner, "arg"}
+					}
+				}
+			}
+		}
+		if hit != nil {
+			return
+		}
+		switch x := s.(type) {
 		case *ast.IfStmt:
 			if labeled {
 				return
@@ -414,7 +501,7 @@ func (st *delitState) delitOnce(fname string, src []byte, original, skip map[str
 		if len(vs.Names) != len(rs) {
 			return bail("declaration arity")
 		}
-	case "ifcond", "range":
+	case "ifcond", "range", "arg":
 		if len(rs) != 1 {
 			return bail("single value expected")
 		}
@@ -562,6 +649,12 @@ func (st *delitState) delitOnce(fname string, src []byte, original, skip map[str
 		// replace the call inside the condition by the temporary
 		cond := string(src[off(ifs.Cond.Pos()):off(hit.call.Pos())]) + temps[0] + string(src[off(hit.call.End()):off(ifs.End())])
 		post.WriteString("if " + cond + "\n")
+	case "arg":
+		wrap = true
+		if as, isAs := hit.stmt.(*ast.AssignStmt); isAs && as.Tok == token.DEFINE {
+			wrap = false // the defined names must stay visible
+		}
+		post.WriteString(string(src[off(hit.stmt.Pos()):off(hit.call.Pos())]) + temps[0] + string(src[off(hit.call.End()):off(hit.stmt.End())]) + "\n")
 	case "range":
 		wrap = true
 		r := hit.stmt.(*ast.RangeStmt)
@@ -633,4 +726,23 @@ func delitOverlay(dir string, overlay map[string][]byte, env []string) (map[stri
 		return overlay, append(st.notes, "de-literalisation undone: the package does not type-check with it"+why)
 	}
 	return out, st.notes
+}
+
+func rootIdentOf(e ast.Expr) *ast.Ident {
+	for {
+		switch x := e.(type) {
+		case *ast.Ident:
+			return x
+		case *ast.SelectorExpr:
+			e = x.X
+		case *ast.IndexExpr:
+			e = x.X
+		case *ast.StarExpr:
+			e = x.X
+		case *ast.ParenExpr:
+			e = x.X
+		default:
+			return nil
+		}
+	}
 }
